@@ -263,6 +263,17 @@ impl Property for C08 {
             find.env = Some(env);
             find.note = "tight-budget".into();
         }
+        // now and then the children are real processes, and find's working directory is so
+        // deep that its absolute path does not fit PATH_MAX (relative names keep working)
+        let real = !tight && rng.chance(1, 25);
+        let long_cwd = if real && rng.chance(2, 3) { Some(*rng.pick(&[2000usize, 3900, 4090, 4100, 4600, 6000])) } else { None };
+        if real {
+            find.real_children = true;
+            find.long_cwd = long_cwd;
+            find.starts_via_file = false;
+            find.outcomes.retain(|o| matches!(o, Outcome::Exit(_) | Outcome::Signal(..)));
+            find.ambient.stdout_tty = false;
+        }
         let mut sc = Sc {
             find,
             starts,
@@ -275,7 +286,7 @@ impl Property for C08 {
             fixed,
             place: *rng.pick(&[Place::Plain, Place::Plain, Place::Parens, Place::Negated, Place::OrLeft, Place::OrRight, Place::Comma]),
             quit_name,
-            second: if rng.chance(1, 5) { Some(rng.chance(1, 2)) } else { None },
+            second: if rng.chance(1, 5) && !real { Some(rng.chance(1, 2)) } else { None },
         };
         sc.render();
         sc
@@ -289,15 +300,55 @@ impl Property for C08 {
     }
 
     fn check(sc: &Sc, ctx: &mut Ctx, rep: &mut Report) {
-        let root = ctx.scratch.join("A");
+        let mut root = ctx.scratch.join("A");
         let _ = std::env::set_current_dir(&ctx.scratch);
-        crate::sys::wipe(&root);
-        std::fs::create_dir_all(&root).expect("scratch root");
+        if let Some(len) = sc.find.long_cwd {
+            // everything below happens from inside the long directory, with relative names
+            if let Err(e) = crate::find::enter_long_cwd(ctx, len) {
+                crate::find::leave_long_cwd(ctx);
+                rep.fail("C08.HARNESS-tree-build", format!("cannot enter a working directory of {len} bytes: {e}"));
+                return;
+            }
+            root = std::path::PathBuf::from(".");
+            rep.probe(if len + 300 > 4096 { "working_directory_path_beyond_path_max" } else { "working_directory_path_thousands_of_bytes" });
+        } else {
+            crate::sys::wipe(&root);
+            std::fs::create_dir_all(&root).expect("scratch root");
+        }
         if let Err(e) = tree::build(&root, &sc.find.tree) {
+            crate::find::leave_long_cwd(ctx);
             rep.fail("C08.HARNESS-tree-build", format!("cannot build tree: {e}"));
             return;
         }
         let obs = run_find_prebuilt(&sc.find, ctx, root);
+        if sc.find.long_cwd.is_some() {
+            crate::find::leave_long_cwd(ctx);
+        }
+        if sc.find.real_children {
+            rep.probe("real_child_processes");
+            if let Some(m) = &obs.real_mismatch {
+                rep.fail("C08.real-children-differ", format!("argv {:?}: {m}", &sc.find.argv[..sc.find.argv.len().min(12)]));
+                return;
+            }
+            // the children are there and executable: an invocation that could not be started
+            // is find's own doing (a command line or a working directory the system refuses)
+            for ev in &obs.log.events {
+                if let Event::Spawn { outcome: Outcome::SpawnErr(e), cwd, argv, .. } = ev {
+                    rep.fail(
+                        "C08.invocation-could-not-be-started",
+                        format!(
+                            "argv {:?} (working directory of {:?} bytes): an invocation with {} arguments and working directory {:?} could not be started: {}",
+                            &sc.find.argv[..sc.find.argv.len().min(12)],
+                            sc.find.long_cwd,
+                            argv.len(),
+                            cwd.as_ref().map(|c| crate::sys::show(&c.0[..c.0.len().min(80)])),
+                            std::io::Error::from_raw_os_error(*e)
+                        ),
+                    );
+                    return;
+                }
+            }
+        }
         rep.executions += 1;
         account_find(&obs, rep);
         if sc.execdir {
